@@ -23,9 +23,11 @@ ASSUMPTIONS = ["migen tracer shim (names only)", "masters never abort a pending 
                "unmapped addresses are only issued where a timeout is configured (InterconnectShared)"]
 FLOORS = {"quick": {"master_cycles_completed": 15000, "paired_with_slave": 14000, "contended_waits": 1500, "grant_changes": 1500,
                     "decode_checks": 20000, "unmapped_terminated": 100,
-                    "owner_holds_cyc_with_stb_low_cycles": 500},
+                    "owner_holds_cyc_with_stb_low_cycles": 500, "socmap_maps_built": 40, "socmap_regions_not_pow2": 50,
+                    "socmap_requests_refused": 5},
           "thorough": {"master_cycles_completed": 300000, "paired_with_slave": 280000, "contended_waits": 30000,
-                       "grant_changes": 30000, "decode_checks": 400000, "unmapped_terminated": 2000}}
+                       "grant_changes": 30000, "decode_checks": 400000, "unmapped_terminated": 2000, "socmap_maps_built": 500,
+                       "socmap_regions_not_pow2": 600, "socmap_requests_refused": 60}}
 SHARD_TIMEOUT = {"quick": 900, "thorough": 3000}
 N_SAMPLES = 3
 ADR_W = 12
@@ -43,6 +45,11 @@ def plan(tier, seed):
                                       "seed": "%d/C06/%s/%d%d%d/%d" % (seed, kind, m, s, int(reg), k)})
     for k in range(per):
         cases.append({"kind": "p2p", "m": 1, "s": 1, "register": False, "seed": "%d/C06/p2p/%d" % (seed, k)})
+    # address maps made by SoCBusHandler (anchor soc.py): regions of any size, placed by the designer or allocated automatically;
+    # what it accepts is built and judged on the decoded windows, what it refuses is a rejection
+    for k in range(per * 6):
+        cases.append({"kind": ["shared", "crossbar"][k % 2], "m": 1 + k % 3, "s": 2 + (k // 3) % 2, "register": bool((k // 6) % 2), "socmap": True,
+                      "seed": "%d/C06/socmap/%d" % (seed, k)})
     n = 32 if tier == "quick" else 128
     return [{"id": "wb%03d" % i, "cls": "interconnect", "cases": cases[i::n]} for i in range(n)]
 
@@ -154,7 +161,52 @@ def run_case(case):
             decs.append(((lambda a, o=o, k=k: a[k:] == (o >> k)), s))
     timeout = None
     top = Module()
-    if kind == "shared":
+    socmap_info = None
+    if case.get("socmap"):
+        from litex.soc.integration.soc import SoCBusHandler, SoCError
+        from lib import env as _env
+        masters = [wishbone.Interface(data_width=32, adr_width=30) for _ in range(nm)]
+        slaves = [wishbone.Interface(data_width=32, adr_width=30) for _ in range(ns)]
+        bus = SoCBusHandler(standard="wishbone", data_width=32, address_width=32, timeout=None, interconnect=kind,
+                            interconnect_register=case["register"])
+        for mi, m in enumerate(masters):
+            bus.add_master("m%d" % mi, master=m)
+        nxt, rejected, placed = 0, 0, []
+        for si, s in enumerate(slaves):
+            for attempt in range(6):
+                size = rng.choice([0x30, 0x50, 0x60, 0xc0, 0x140, 0x300, 0x40, 0x100, 0x20])
+                how = rng.choice(["after-previous", "auto", "auto", "aligned"])
+                origin = {"after-previous": nxt, "auto": None, "aligned": (nxt + 0x3ff) & ~0x3ff}[how]
+                try:
+                    bus.add_slave("s%d" % si, slave=s, region=SoCRegion(origin=origin, size=size))
+                    r_ = bus.regions["s%d" % si]
+                    nxt = r_.origin + r_.size
+                    placed.append([how, r_.origin, r_.size])
+                    break
+                except (SoCError, Exception):
+                    _env.restore_stderr()
+                    rejected += 1
+                    bus.slaves.pop("s%d" % si, None)
+                    bus.regions.pop("s%d" % si, None)
+            else:
+                return {"errs": [], "rejected_only": True, "st": None}
+        top.submodules.socbus = bus
+        try:
+            bus.finalize()
+        except (SoCError, Exception):
+            _env.restore_stderr()
+            return {"errs": [], "rejected_only": True, "st": None}
+        regs = []
+        for si in range(ns):
+            r_ = bus.regions["s%d" % si]
+            regs.append((r_.origin // 4, (r_.size_pow2 // 4).bit_length() - 1))
+        socmap_info = {"placed": placed, "rejected_requests": rejected}
+        ic = bus._interconnect
+        if kind == "shared":
+            arbs = [ic.arbiter]
+        else:
+            arbs = [m for _, m in ic._submodules if isinstance(m, wishbone.Arbiter)]
+    elif kind == "shared":
         timeout = rng.choice([None, 16, 24])
         top.submodules.ic = ic = wishbone.InterconnectShared(masters, decs, register=case["register"], timeout_cycles=timeout)
         arbs = [ic.arbiter]
@@ -277,7 +329,7 @@ def run_case(case):
             "decode_checks": dm.checks, "cycles": bench.cycle["sys"], "capped": not ok,
             "held_gaps": sum(g.held_gaps for g in gms),
             "slave_errs": sum(1 for s in sags for e in s.log if e["err"]),
-            "cfg": {"regs": regs, "socregion": use_socregion, "timeout": timeout},
+            "cfg": {"regs": regs, "socregion": use_socregion, "timeout": timeout, "socmap": socmap_info},
             "sample_master_log": mags[0].log[:3]}
 
 
@@ -287,6 +339,16 @@ def run_shard(shard):
         r = col.guard(case, run_case, case)
         if r is None:
             continue
+        if r.get("rejected_only"):
+            col.ev("socmap_maps_refused_entirely")
+            col.case_done(case, False)
+            continue
+        if case.get("socmap"):
+            col.ev("socmap_maps_built")
+            col.ev("socmap_requests_refused", r["cfg"]["socmap"]["rejected_requests"])
+            for how, o, sz in r["cfg"]["socmap"]["placed"]:
+                col.ev("socmap_regions_" + ("pow2" if sz & (sz - 1) == 0 else "not_pow2"))
+                col.cov("socmap_placements", how)
         col.ev("master_cycles_completed", r["completed"])
         col.ev("paired_with_slave", r["paired"])
         col.ev("unmapped_terminated", r["unmapped"])
@@ -300,7 +362,7 @@ def run_shard(shard):
         if r["capped"]:
             col.inconc(case, "cycle cap reached")
         for e in r["errs"][:1]:
-            col.violation("%s/%s" % (case["kind"], e["kind"]), case, "%s %dx%d register=%s: %s" % (
+            col.violation("%s%s/%s" % (case["kind"], "+socmap" if case.get("socmap") else "", e["kind"]), case, "%s %dx%d register=%s: %s" % (
                 case["kind"], case["m"], case["s"], case["register"], e), {"errors": r["errs"], "cfg": r["cfg"]})
         col.case_done(case, r["contended"] > 0 or r["completed"] >= 10,
                       sample={"case": case, "map(origin_words,log2size)": r["cfg"]["regs"], "completed": r["completed"],
